@@ -79,8 +79,8 @@ def check(case):
     n_cross = n_same = 0
     if o.prim is not None:
         pred = o.prim["pred"][:L]
-        if not refs.is_spanning_tree(pred, 0):
-            res.violate("mst", "C02/tree-not-spanning", f"predecessor map after the prototype search is not a spanning tree rooted at 0: {pred}")
+        if not refs.is_spanning_tree(pred):
+            res.violate("mst", "C02/tree-not-spanning", f"predecessor map after the prototype search is not a spanning tree: {pred}")
             return res
         tw = sorted(float(W[pred[q], q]) for q in range(L) if pred[q] != -1)
         ref = refs.mst_weight_multiset(W)
